@@ -417,7 +417,7 @@ def _r7(model, res, E):
     for o in outs:
         if o.imprecise:
             continue
-        zero = any(isinstance(s, Atom) and s.op == 'eq' and alt is True for (t, alt, s) in o.notes)
+        zero = any(isinstance(s, Atom) and ((s.op == 'eq' and alt is True) or (s.op == 'ne' and alt is False)) for (t, alt, s) in o.notes)
         if zero:
             ok = o.kind == 'return' and isinstance(o.value, Err) and o.value.name == E['#DIV/0!']
             res.ob('R7', 'MOD', 'zero divisor', ok, repr(o))
@@ -433,7 +433,7 @@ def _r7(model, res, E):
     m, f = model.registered('QUOTIENT')
     outs = H.run_function(model, H.registry_func(model, 'QUOTIENT'), lambda: [Sym('int', 'n'), Sym('int', 'd')])
     for o in outs:
-        if o.imprecise or any(isinstance(s, Atom) and s.op == 'eq' and alt is True for (t, alt, s) in o.notes):
+        if o.imprecise or any(isinstance(s, Atom) and ((s.op == 'eq' and alt is True) or (s.op == 'ne' and alt is False)) for (t, alt, s) in o.notes):
             continue
         if o.kind == 'return' and o.value.tag == 'err':
             continue        # the zero-divisor exit, however its test is spelled
